@@ -2,6 +2,12 @@
 use serde_json::{json, Map, Value};
 use std::collections::BTreeMap;
 
+thread_local! { static PROBE_CLASS: std::cell::RefCell<Option<String>> = std::cell::RefCell::new(None); }
+/// while set, every failure reported carries this class: used for the fixed probes of recorded findings, so that
+/// KNOWN_FINDINGS.json matches a finding only on its own witness
+pub fn probe_active() -> bool { PROBE_CLASS.with(|p| p.borrow().is_some()) }
+pub fn set_probe_class(c: Option<&str>) { PROBE_CLASS.with(|p| *p.borrow_mut() = c.map(|x| x.to_string())); }
+
 #[derive(Default)]
 pub struct Report {
     pub counters: BTreeMap<String, u64>,
@@ -15,6 +21,8 @@ impl Report {
     pub fn add(&mut self, k: &str, n: u64) { *self.counters.entry(k.to_string()).or_insert(0) += n; }
     pub fn sample(&mut self, v: Value, max: usize) { if self.samples.len() < max { self.samples.push(v); } }
     pub fn fail(&mut self, v: Value) {
+        let mut v = v;
+        PROBE_CLASS.with(|p| if let Some(c) = p.borrow().as_ref() { v["class"] = Value::String(c.clone()); });
         // keep at most 10 witnesses per (property, kind, class, stream) so that one frequent failure does not hide the others
         let key = format!("failures.{}.{}.{}.{}", v.get("prop").and_then(|x| x.as_str()).unwrap_or("?"), v.get("kind").and_then(|x| x.as_str()).unwrap_or("?"), v.get("class").and_then(|x| x.as_str()).unwrap_or("-"), v.get("stream").and_then(|x| x.as_str()).unwrap_or("-"));
         let seen = *self.counters.get(&key).unwrap_or(&0);
